@@ -52,6 +52,24 @@ func (s *Set) OlderImports() []Import {
 	return out
 }
 
+// OlderSubText is the submodule that only the older revision includes (nil if there is no older revision): a
+// container of its own and an augment of a container of the older revision, whose path leads into the revision that
+// includes the submodule although the bare name of the module denotes another one.
+func (s *Set) OlderSubText() *Source {
+	m := s.Find(s.Older)
+	if m == nil || m.IsSub || len(m.Revisions) == 0 {
+		return nil
+	}
+	aug := ""
+	if s.OlderFirst {
+		// in half of the sets; in the other half nothing in the submodule makes Process itself ask into which
+		// revision a path from this submodule leads, so the first to ask is a reader
+		aug = fmt.Sprintf("  augment \"/%s:older-only\" { leaf from-oldsub { type string; } }\n", m.Prefix)
+	}
+	text := fmt.Sprintf("submodule %s-oldsub {\n  belongs-to %s { prefix %s; }\n  container oldsub-c { leaf x { type string; } }\n%s}\n", m.Name, m.Name, m.Prefix, aug)
+	return &Source{Name: m.Name + "-oldsub.yang", Text: s.layout(text)}
+}
+
 // OlderText is the text of the older revision (nil if there is none).
 func (s *Set) OlderText() *Source {
 	m := s.Find(s.Older)
@@ -63,6 +81,7 @@ func (s *Set) OlderText() *Source {
 	for _, im := range s.OlderImports() {
 		fmt.Fprintf(&b, "  import %s { prefix %s; }\n", im.Module, im.Prefix)
 	}
+	fmt.Fprintf(&b, "  include %s-oldsub;\n", m.Name)
 	b.WriteString("  revision 2019-05-05;\n")
 	seen := map[string]bool{}
 	for _, x := range s.Modules {
@@ -669,10 +688,11 @@ func (p *pr) node(n *Node) {
 func (s *Set) Texts() []Source {
 	out := s.ModuleTexts()
 	if o := s.OlderText(); o != nil {
+		os := s.OlderSubText()
 		if s.OlderFirst {
-			out = append([]Source{*o}, out...)
+			out = append([]Source{*o, *os}, out...)
 		} else {
-			out = append(out, *o)
+			out = append(out, *os, *o)
 		}
 	}
 	return append(out, s.Extra...)
